@@ -652,6 +652,10 @@ Section AnimShape.
       assert (Hcw' : (cw - 1) mod 256 + 256 * (((cw - 1) / 256) mod 256) + 65536 * (((cw - 1) / 65536) mod 256) + 1 = cw) by lia.
       assert (Hch' : (ch - 1) mod 256 + 256 * (((ch - 1) / 256) mod 256) + 65536 * (((ch - 1) / 65536) mod 256) + 1 = ch) by lia.
       rewrite Hcw', Hch'.
+      (* tolerate the canvas-area cap of the demuxer, if present *)
+      try (match goal with |- context [cw * ch >=? D.MaxImageArea] =>
+             destruct (Z.geb_spec (cw * ch) D.MaxImageArea) as [Hbad|_];
+             [exfalso; unfold D.MaxImageArea in Hbad; unfold MaxImageArea in Harea; lia|] end).
       assert (Han : negb ((flags / 2) mod 2 =? 0) = true).
       { destruct (flag_bits_bridge flags ltac:(lia)) as (_ & _ & _ & _ & G1 & _). rewrite <- G1. exact Hanim. }
       rewrite Han. fold ft. fold vx. fold d0. rewrite El. cbn [bind]. rewrite Gf.
